@@ -10,6 +10,10 @@ two places where the code would raise on a state that violates C13's invariants
 unreachable under the invariants (`countAt_defined`, `quantileQ_defined`).
 -/
 namespace Distogram
+open Gen.DistogramExpr (countOutside countAtMin countAtMax countLeftTest countLeftRatio countLeftResult countRightTest
+  countRightRatio countRightResult countMb countInteriorResult quantInRange quantCountArg quantLeftTest quantLeftFraction
+  quantLeftResult quantRightTest quantRightBase quantRightFraction quantRightResult quantMb quantMid quantWalkTest
+  quantInteriorFraction quantInteriorResult)
 
 variable {K : Type} [Add K] [Sub K] [Mul K] [Div K] [LT K] [LE K]
   [DecidableLT K] [DecidableLE K] [OfNat K 0] [OfNat K 1] [OfNat K 2]
@@ -27,8 +31,7 @@ before bin `i`:
 `mb = fi + (fj - fi) / (vj - vi) * (value - vi)`;
 `(fi + mb) / 2 * (value - vi) / (vj - vi) + S + fi / 2`. -/
 def seg (S vi fi vj fj x : K) : K :=
-  let mb := fi + (fj - fi) / (vj - vi) * (x - vi)
-  (fi + mb) / 2 * (x - vi) / (vj - vi) + S + fi / 2
+  countInteriorResult x (countMb x vi fi vj fj) vi fi vj fj S
 
 /-- The interior branch of `count_at` (:377-387): `i = #{v < value} - 1`, bins `i` and `i+1`. -/
 def interior (bins : List (K × K)) (x : K) : Option K :=
@@ -43,15 +46,13 @@ stays faithful to the code. -/
 def countAt (bins : List (K × K)) (mn mx : Option K) (x : K) : Option K :=
   match bins.head?, bins.getLast?, mn, mx with
   | some (v0, f0), some (vl, fl), some lo, some hi =>
-    if x < lo ∨ hi < x then none
-    else if eqK x lo then some 0
-    else if eqK x hi then some (sumCounts bins)
-    else if x ≤ v0 then
-      let ratio := (x - lo) / (v0 - lo)
-      some (ratio * v0 / 2)
-    else if vl ≤ x then
-      let ratio := (x - vl) / (hi - vl)
-      some ((1 + ratio) * fl / 2 + sumCounts bins.dropLast)
+    if countOutside x lo hi then none
+    else if countAtMin x lo hi then some 0
+    else if countAtMax x lo hi then some (sumCounts bins)
+    else if countLeftTest x lo hi v0 vl then
+      some (countLeftResult (countLeftRatio x lo hi v0 f0) x lo hi v0 f0)
+    else if countRightTest x lo hi v0 vl then
+      some (countRightResult (countRightRatio x lo hi vl fl) x lo hi vl fl (sumCounts bins.dropLast))
     else interior bins x
   | _, _, _, _ => none
 
@@ -59,8 +60,8 @@ def countAt (bins : List (K × K)) (mn mx : Option K) (x : K) : Option K :=
 `mids[i] = (f[i] + f[i+1]) / 2` (`itertools.accumulate`) to the first one above `mb`. -/
 def scanQ (acc : K) : List (K × K) → K → Option K
   | (vi, fi) :: (vj, fj) :: rest, mb =>
-    let mid := (fi + fj) / 2
-    if mb < acc + mid then some (vi + (mb - acc) / mid * (vj - vi))
+    let mid := quantMid fi fj
+    if quantWalkTest mb (acc + mid) then some (quantInteriorResult (quantInteriorFraction mb acc mid) vi vj)
     else scanQ (acc + mid) ((vj, fj) :: rest) mb
   | _, _ => none
 
@@ -69,30 +70,28 @@ def quantileQ (bins : List (K × K)) (mn mx : Option K) (q : K) : Option K :=
   match bins.head?, bins.getLast?, mn, mx with
   | some (v0, f0), some (vl, fl), some lo, some hi =>
     let total := sumCounts bins
-    if q ≤ f0 / 2 then
-      let fraction := q / (f0 / 2)
-      some (lo + fraction * (v0 - lo))
-    else if total - fl / 2 ≤ q then
-      let base := q - (total - fl / 2)
-      let fraction := base / (fl / 2)
-      some (vl + fraction * (hi - vl))
-    else scanQ 0 bins (q - f0 / 2)
+    if quantLeftTest q total f0 fl then
+      some (quantLeftResult (quantLeftFraction q total f0) q lo v0 f0)
+    else if quantRightTest q total f0 fl then
+      let base := quantRightBase q total fl
+      some (quantRightResult (quantRightFraction base q total fl) base vl hi fl)
+    else scanQ 0 bins (quantMb q total f0)
   | _, _, _, _ => none
 
 /-- `quantile(h, value)`: `None` outside `[0, 1]`, else `q_count = int(total_count * value)`;
 `floor` is Python's `int()` on a non-negative number and is a parameter. -/
 def quantile (floor : K → K) (bins : List (K × K)) (mn mx : Option K) (value : K) : Option K :=
   if bins.isEmpty then none
-  else if ¬ (0 ≤ value ∧ value ≤ 1) then none
-  else quantileQ bins mn mx (floor (sumCounts bins * value))
+  else if ¬ quantInRange value then none
+  else quantileQ bins mn mx (floor (quantCountArg (sumCounts bins) value))
 
 /-- `ColumnProfile.estimate_values_below(point)` (profiler.py:159-162). -/
 def estimateBelow (bins : List (K × K)) (mn mx : Option K) (point : K) : Option K :=
   countAt bins mn mx point
 
-/-- `ColumnProfile.estimate_values_above(point)` (profiler.py:164-167):
+/-- `ColumnProfile.estimate_values_above(point)` (profiler.py:164-167), the generated
 `(count - missing) - count_at(point)`. -/
-def estimateAbove (nonNull : K) (bins : List (K × K)) (mn mx : Option K) (point : K) : Option K :=
-  (countAt bins mn mx point).map (fun c => nonNull - c)
+def estimateAbove (count missing : K) (bins : List (K × K)) (mn mx : Option K) (point : K) : Option K :=
+  (countAt bins mn mx point).map (fun c => Gen.DistogramExpr.estimateAbove count missing c)
 
 end Distogram
